@@ -111,6 +111,17 @@ CHECKS = {
              "and that common and script lookups never hold the same glyph pair, are not decided.",
         design_ref="DESIGN.md §5 C05", note=STATIC_NOTE,
         technique="static analysis: reaching-definition value-flow (quantize sanitiser), keyword/role tables checked against parsed fontTools signatures, guard facts, sibling agreement, loop-shape rules"),
+    "C06": dict(
+        text="Static structural clauses of the mark writer: x/y role agreement and otRoundIgnoringVariable at every feaLib Anchor construction; "
+             "_getAnchor returns (x, y) with the first only derived from .x and the second only from .y on the static (quantised) and "
+             "variable (per-source otRound at the source's own location) paths, and NamedAnchor receives them in the same roles; an anchor "
+             "pair is recorded only under membership of its mark counterpart (markPrefix + key) and never for mark anchors; mark classes "
+             "written and read under anchor.key, argument roles of _defineMarkClass / MarkClassDefinition; ligature components "
+             "range(1, max+1) with [] for gaps and numbering >= 1; statement-class table against fontTools; attachment filters "
+             "(numbered / class-less / mark glyphs); parseAnchorName prefix logic. Resulting offsets, lookup grouping and abvm/blwm "
+             "routing are not decided.",
+        design_ref="DESIGN.md §5 C06", note=STATIC_NOTE,
+        technique="static analysis: argument-role agreement against parsed fontTools signatures, coordinate leaf tracing through reaching definitions, guard facts from control dependence, class-attribute tables"),
 }
 
 _TODO = "check not built yet in this session (static rules designed in DESIGN.md §5; will be claimed when the rule set is armed)"
